@@ -808,6 +808,58 @@ def r20(text, ctx):
     toks = lex(body)
     n = 0
     for i, t in enumerate(toks):
+        # variant: `let x = if C { loop { .. break E .. } } else { F };` -> slot; `if C { loop { .. } } else { slot = Some(F); }`; unwrap
+        if t.kind == 'ident' and t.text == 'let' and i + 3 < len(toks) and toks[i + 2].text == '=' and toks[i + 3].text == 'if':
+            name = toks[i + 1].text
+            k = i + 4
+            while k < len(toks) and toks[k].text != '{':
+                if toks[k].text in ('(', '['):
+                    k = match_close(toks, k)
+                k += 1
+            to, tc = k, match_close(toks, k)
+            if not (toks[to + 1].text == 'loop' and toks[to + 2].text == '{' and match_close(toks, to + 2) == tc - 1):
+                continue
+            if not (toks[tc + 1].text == 'else' and toks[tc + 2].text == '{'):
+                continue
+            eo, ec = tc + 2, match_close(toks, tc + 2)
+            if toks[ec + 1].text != ';':
+                continue
+            lo, lc = to + 2, tc - 1
+            edits = []
+            j = lo + 1
+            while j < lc:
+                x = toks[j]
+                if x.kind == 'ident' and x.text in ('loop', 'while', 'for'):
+                    q = j + 1
+                    while toks[q].text != '{':
+                        q += 1
+                    j = match_close(toks, q) + 1
+                    continue
+                if x.kind == 'ident' and x.text == 'break' and toks[j + 1].text not in (';', '}', ','):
+                    q = j + 1
+                    while q < lc:
+                        y = toks[q].text
+                        if y in ('(', '[', '{'):
+                            q = match_close(toks, q)
+                        elif y in (',', ';', '}'):
+                            break
+                        q += 1
+                    expr = body[toks[j + 1].start:toks[q - 1].end]
+                    edits.append((x.start, toks[q - 1].end, '{ verif_slot = Some(%s); break; }' % expr))
+                    j = q
+                    continue
+                j += 1
+            if not edits:
+                continue
+            tys = [a[5:].strip() for a in ctx.rule_args.get('R20', []) if a.startswith('type ')]
+            ann = (': Option<%s>' % tys[0]) if tys else ''
+            else_expr = body[toks[eo].end:toks[ec].start].strip()
+            edits.append((toks[i].start, toks[i + 3].start, 'let mut verif_slot%s = None;\n        ' % ann))
+            edits.append((toks[eo].end, toks[ec].start, ' verif_slot = Some(%s); ' % else_expr))
+            edits.append((toks[ec + 1].start, toks[ec + 1].end, '\n        let %s = verif_slot.unwrap();' % name))
+            body = toks_replace(body, edits)
+            n += 1
+            break
         if t.kind == 'ident' and t.text == 'let' and i + 4 < len(toks) and toks[i + 2].text == '=' and toks[i + 3].text == 'loop' and toks[i + 4].text == '{':
             name = toks[i + 1].text
             lo = i + 4
